@@ -81,7 +81,7 @@ fn gen(rng: &mut Rng, long: bool) -> Program {
     Program { coarse_clock_us: coarse, ops }
 }
 
-#[derive(Clone, Debug)]
+#[derive(Clone, Debug, PartialEq)]
 pub struct Rec {
     pub time: u64,
     pub key: u64,
@@ -176,6 +176,27 @@ fn execute(prog: Program) -> Outcome {
     let mut uniq = 0u32;
     let mut cur: Option<usize> = None;
     let mut last_total_written = 0usize;
+    // what the files held at the previous quiet point: between declutters and restarts the log only grows
+    let mut last_seen: Vec<Rec> = Vec::new();
+    // (judged with the strict clock only: with the coarse clock of the simulator two rotations can fall
+    // into one tick and get the same file name, which a nanosecond clock does not allow)
+    let strict_clock = prog.coarse_clock_us == 0;
+    fn only_grew(prev: &[Rec], now: &[Rec]) -> bool {
+        // every record seen before is still there (as a multiset: with a coarse clock the write order
+        // of two files born in the same tick is not defined)
+        let mut have: BTreeMap<(u64, u64, u64, u8), i64> = BTreeMap::new();
+        for r in now {
+            *have.entry((r.time, r.key, r.db, r.op)).or_insert(0) += 1;
+        }
+        for r in prev {
+            let e = have.entry((r.time, r.key, r.db, r.op)).or_insert(0);
+            *e -= 1;
+            if *e < 0 {
+                return false;
+            }
+        }
+        true
+    }
     for (oi, op) in prog.ops.iter().enumerate() {
         let mut sel = |admin: &mut Session, db: usize, cur: &mut Option<usize>| {
             if *cur != Some(db) {
@@ -216,13 +237,22 @@ fn execute(prog: Program) -> Outcome {
             Op::Sleep { ms } => sleep_ms(*ms as u64),
             Op::Declutter => {
                 sleep_ms(2);
-                let before = scan(idx).0;
+                let (before, nfiles_before, _) = scan(idx);
+                if strict_clock && !only_grew(&last_seen, &before) {
+                    out.violations.push(Violation::new(
+                        "records-vanished",
+                        format!("before-declutter:{}", if nfiles_before >= 9 { "9+files" } else { "<9files" }),
+                        format!("op #{}: {} records were in the log files at the previous quiet point, now {} and some of the earlier ones are gone (no declutter, no restart in between)", oi, last_seen.len(), before.len()),
+                    ));
+                    return out;
+                }
                 if !w.declutter_tick(0, 20_000) {
                     out.violations.push(Violation::new("declutter-stuck", "declutter", format!("op #{}", oi)));
                     return out;
                 }
                 sleep_ms(2);
                 let (after, nfiles, _) = scan(idx);
+                last_seen = after.clone();
                 // retention: what is left must be a suffix of what was there, and must still hold the
                 // newest floor(max/25) records
                 let keep = (max_log / 25) as usize;
@@ -276,10 +306,21 @@ fn execute(prog: Program) -> Outcome {
                 for i in 0..ndbs {
                     admin.exec(&format!("create-db d{} tok none", i));
                 }
+                sleep_ms(2);
+                last_seen = scan(idx).0;
             }
             Op::Query { since } => {
                 sleep_ms(2);
                 let (all, nfiles, _current) = scan(idx);
+                if strict_clock && !only_grew(&last_seen, &all) {
+                    out.violations.push(Violation::new(
+                        "records-vanished",
+                        format!("query:{}", if nfiles >= 9 { "9+files" } else { "<9files" }),
+                        format!("op #{}: {} records were in the log files at the previous quiet point, now {} and some of the earlier ones are gone (no declutter, no restart in between)", oi, last_seen.len(), all.len()),
+                    ));
+                    return out;
+                }
+                last_seen = all.clone();
                 out.max_files = out.max_files.max(nfiles);
                 out.max_records = out.max_records.max(all.len());
                 if nfiles > 0 {
